@@ -64,7 +64,7 @@ class ProjectResultRegistry(ProjectRegistry):
         return sorted(
             path
             for path in self.directory.glob(f"{base_name}_run_*")
-            if run_name_pattern.fullmatch(path.name) is not None
+            if run_name_pattern.fullmatch(path.relative_to(self.directory).as_posix()) is not None
         )
 
     def _latest_result_path_fallback(self, name: str, *, latest: bool = False) -> Path:
@@ -101,8 +101,9 @@ class ProjectResultRegistry(ProjectRegistry):
                     ),
                     stacklevel=3,
                 )
-            previous_result_paths = self.previous_result_paths(name) or [Path(name)]
-            name = previous_result_paths[-1].stem
+            previous_result_paths = self.previous_result_paths(name)
+            if previous_result_paths:
+                name = previous_result_paths[-1].relative_to(self.directory).as_posix()
         path = self._directory / name
         if self.is_item(path):
             return path
@@ -127,7 +128,7 @@ class ProjectResultRegistry(ProjectRegistry):
         previous_results = self.previous_result_paths(base_name)
         if not previous_results:
             return f"{base_name}_run_0000"
-        latest_result_run_nr = int(previous_results[-1].stem.replace(f"{base_name}_run_", ""))
+        latest_result_run_nr = int(previous_results[-1].name[-4:])
         return f"{base_name}_run_{latest_result_run_nr+1:04}"
 
     def save(self, name: str, result: Result):
